@@ -57,14 +57,32 @@ def _alarm(_sig, _frm):
     raise Hang()
 
 
-def guarded(fn, seconds=60):
+def guarded(fn, seconds=60, extra_memory=3 << 30):
+    """Run fn under an alarm and under an address-space limit of 'what the process has now + 3 GiB', so that a search
+    that eats memory raises MemoryError (an internal error like any other) instead of getting the process killed."""
+    import resource
+
     old = signal.signal(signal.SIGALRM, _alarm)
+    soft, hard = resource.getrlimit(resource.RLIMIT_AS)
+    try:
+        with open("/proc/self/statm") as fh:
+            now = int(fh.read().split()[0]) * resource.getpagesize()
+        limit = now + extra_memory
+        if hard != resource.RLIM_INFINITY:
+            limit = min(limit, hard)
+        resource.setrlimit(resource.RLIMIT_AS, (limit, hard))
+    except (OSError, ValueError):
+        pass
     signal.alarm(seconds)
     try:
         return fn()
     finally:
         signal.alarm(0)
         signal.signal(signal.SIGALRM, old)
+        try:
+            resource.setrlimit(resource.RLIMIT_AS, (soft, hard))
+        except (OSError, ValueError):
+            pass
 
 
 def uses_reserved(case):
@@ -100,10 +118,11 @@ def check_problem(case, do_cli=False, do_tensor_method=False, collect_code=None)
     fails = []
     code = None
     try:
-        res = guarded(lambda: generate_code(problem, kinds, lang))
+        limit = int(case.get("alarm", 60))
+        res = guarded(lambda: generate_code(problem, kinds, lang), limit)
     except Hang:
         info["status"] = "hang"
-        return [fail("generation-hangs", f"{d}: no result within 60 s", **extra)], info
+        return [fail("generation-hangs", f"{d}: no result within {limit} s", **extra)], info
     except RecursionError as e:
         info["status"] = "exception"
         return [fail(f"internal-error:RecursionError@{bridge.innermost_frame(e)}", d, **extra)], info
@@ -354,6 +373,15 @@ def wide_problems(draw, tier):
         k = {"right": 1, "left": len(ls) - 1, "balanced": len(ls) // 2}[nest]
         return [op, build(ls[:k]), build(ls[k:])]
 
+    # "ordered": every index list (and the target) is increasing in one global order and every level is dense in natural
+    # order, so the identity order is legal, nothing is pruned and a lazy search returns at once; only these cases can
+    # accuse a change.  Otherwise (a quarter of the thorough tier) index lists and formats are arbitrary, most orders are
+    # excluded and tensora's own search is factorial (known finding F-M, matched by signature).
+    ordered = tier == "quick" or draw(st.integers(0, 3)) != 0
+    rank = {i: q for q, i in enumerate(pool)}
+    if ordered:
+        for t in leaves:
+            t[2].sort(key=rank.get)
     tree = build(leaves)
     allidx = X.indexes_of(tree)
     if op == "+":
@@ -362,11 +390,20 @@ def wide_problems(draw, tier):
         tgt = common[:2]
     else:
         tgt = list(draw(st.permutations(allidx)))[: draw(st.integers(0, 3))]
-    fm = {"o": draw(gen.formats(len(tgt), sparse_bias=0.4))}
+    if ordered:
+        tgt = sorted(tgt, key=rank.get)
+
+    def fmt(n, out=False):
+        if ordered:
+            return "d" * n
+        return draw(gen.formats(n, sparse_bias=0.4))
+
+    fm = {"o": fmt(len(tgt))}
     for t in leaves:
-        fm[t[1]] = draw(gen.formats(len(t[2]), sparse_bias=0.4)) if draw(st.integers(0, 3)) == 0 else "d" * len(t[2])
+        fm[t[1]] = fmt(len(t[2]))
     return {"assignment": X.assignment_text(["o", tgt], tree), "formats": fm, "kinds": draw(st.sampled_from(KIND_SUBSETS)),
-            "language": draw(st.sampled_from(["c", "llvm"])), "shape": f"wide-{nest}", "indexes": sorted(set(allidx))}
+            "language": draw(st.sampled_from(["c", "llvm"])), "shape": f"wide-{nest}" + ("" if ordered else "-unordered"),
+            "indexes": sorted(set(allidx)), "globally_ordered": ordered, "alarm": 20}
 
 
 @st.composite
@@ -452,6 +489,7 @@ def run(chk):
     chk.absorb(stats, kind="problem")
     chk.absorb(run_stream(__name__, "random", chk.tier, chk.seed, 480 if quick else 20000), kind="problem")
     chk.absorb(run_stream(__name__, "reserved", chk.tier, chk.seed, 160 if quick else 3000), kind="problem")
+    chk.absorb(run_stream(__name__, "wide", chk.tier, chk.seed, 160 if quick else 2400), kind="problem")
     if not quick:
         from ..runner import coverage_guided
 
